@@ -36,7 +36,10 @@ BY_PROPERTY = {
                                               'Mahotas.pybody_stretch_stretch_eq_stretchList',
                                               'Mahotas.pybody_stretch_stretch_eq_stretchIntG',
                                               'Mahotas.pybody_colors_rgb2xyz_eq_model', 'Mahotas.pybody_colors_rgb2xyz_pixel',
-                                              'Mahotas.pybody_colors_xyz2rgb_eq_model', 'Mahotas.pybody_colors_xyz2rgb_pixel'])],
+                                              'Mahotas.pybody_colors_xyz2rgb_eq_model', 'Mahotas.pybody_colors_xyz2rgb_pixel']),
+            ('Mahotas.Proofs.PyBodyTiesC20b', ['Mahotas.pybody_colors_rgb2grey_eq_model', 'Mahotas.pybody_colors_rgb2grey_pixel',
+                                               'Mahotas.pybody_colors_xyz2lab_pixel', 'Mahotas.pybody_colors_rgb2lab_eq_model',
+                                               'Mahotas.pybody_colors_rgb2lab_pixel', 'Mahotas.pybody_colors_rgb2sepia_eq_model'])],
     'C06': [('Mahotas.Proofs.PyBodyTiesC06', ['Mahotas.pybody_convolve_gaussian_filter1d_eq_model',
                                               'Mahotas.pybody_convolve_laplacian_2D_eq_model'])],
 }
